@@ -214,8 +214,8 @@ fn check_string(l: &mut Local, s: &str, do_get: bool) {
 }
 
 pub fn run(col: &Collector, thorough: bool, _seed: u64, jobs: usize) -> Value {
-    let max_len = if thorough { 7 } else { 6 };
-    let get_len = if thorough { 6 } else { 5 };
+    let max_len = crate::max_len_override().unwrap_or(if thorough { 7 } else { 6 });
+    let get_len = crate::max_len_override().map(|m| m.saturating_sub(1)).unwrap_or(if thorough { 6 } else { 5 });
     let k = ALPHABET.len();
     vutil::run_workers(jobs, col, |w, n| {
         let mut l = Local::new();
